@@ -30,12 +30,20 @@ class P:
 
 
 def decode_exec(p, order, api="recv", finish=True, cb=None, probe="each", release_at=None, s=0, query_first=False,
-                dup=(), double_finish=False, both=False, refinish=False):
+                dup=(), double_finish=False, both=False, refinish=False, builds_before=0, build_slot="buf"):
     """One decoder execution. order: ESIs in arrival order (may contain repeats).
     probe: 'each' = complete+gettab after every call, 'end' = only at the end."""
     out = ["create %d %d dec%s" % (s, p.codec, " both" if both else ""), p.params_line(s)]
     if cb:
         out.append("cb %d %s" % (s, cb))
+    # an instance of both roles (both=True) may also build repair symbols of the block: the first builds_before of
+    # them, in ESI order, before anything is submitted.  (Encoding calls after decoding has begun are not generated:
+    # the LDPC decoder consumes the parity-check matrix it shares with the encoder -- see DESIGN.md, limits.)
+    nb = 0
+    for _ in range(builds_before if both else 0):
+        if nb < p.r:
+            out.append("build %d %d %s" % (s, p.k + nb, build_slot))
+            nb += 1
     if query_first:
         out += ["complete %d" % s, "gettab %d" % s]
     calls = 0
